@@ -173,9 +173,12 @@ def run(ctx):
         else:
             other = ledgers.connect(*ledgers.gen_ledger(rng, ntxn=rng.range(3, 6))[1:])    # a different ledger
         before = audit_fingerprint(shared)
-        pairs = list(itertools.product(range(len(QUERIES)), repeat=2))
+        fixed = [(0, 0), (0, 3), (8, 8), (12, 13), (10, 1), (9, 9), (3, 3), (8, 9), (0, 1), (10, 2), (11, 2), (12, 12), (13, 12)]
+        pairs = rng.shuffle(list(itertools.product(range(len(QUERIES)), repeat=2)))
         if not ctx.thorough():
-            pairs = [p for n, p in enumerate(rng.shuffle(pairs)) if n < 12] + [(0, 0), (0, 3), (3, 3), (8, 8), (9, 9), (8, 9), (0, 1), (10, 1), (10, 2), (11, 2), (12, 13), (12, 12)]
+            pairs = pairs[:12]
+        # the pairs known to be sensitive come first, so that the time budget cannot cut them off
+        pairs = fixed + [p for p in pairs if p not in fixed]
         for qa, qb in pairs:
             queries = [QUERIES[qa][0], QUERIES[qb][0]]
             params = [QUERIES[qa][1], QUERIES[qb][1]]
